@@ -194,6 +194,11 @@ def gen_export(rng, with_rsu=True, hostile=True, n=(3, 25), start_year=(2016, 20
     rows = []
     award_entries = []
     pos = defaultdict(lambda: Fraction(0))
+    # one spelling per symbol and export: brokers are consistent inside one file, but not every file is upper case
+    spell = {}
+    for s_ in SYMBOLS:
+        how = rng.random()
+        spell[s_] = s_ if how < 0.7 else (s_.lower() if how < 0.85 else s_.capitalize())
     for _ in range(rng.randint(*n)):
         D += dt.timedelta(days=rng.choice([0, 0, 1, 2, 5, 9, 30, 45]))
         if D > dt.date(2026, 3, 20):
@@ -201,7 +206,7 @@ def gen_export(rng, with_rsu=True, hostile=True, n=(3, 25), start_year=(2016, 20
         sym = rng.choice(SYMBOLS)
         k = rng.random()
         desc = rng.choice(HOSTILE_TEXT) if hostile else "desc"
-        base = {"Date": spell_date(rng, D), "Symbol": sym if rng.random() < 0.9 else " " + sym + " ",
+        base = {"Date": spell_date(rng, D), "Symbol": spell[sym] if rng.random() < 0.9 else " " + spell[sym] + " ",
                 "Description": desc, "Quantity": "", "Price": "", "Fees & Comm": "", "Amount": ""}
         if k < 0.25:
             q = Fraction(rng.randint(1, 5000), rng.choice([1, 1, 10, 1000]))
@@ -267,14 +272,14 @@ def gen_export(rng, with_rsu=True, hostile=True, n=(3, 25), start_year=(2016, 20
         elif k < 0.84:
             # withholding with no dividend that day / no symbol
             rows.append(dict(base, Action=rng.choice(TAX_ACTIONS), Amount="-" + spell_amount(rng, Fraction(rng.randint(1, 999), 100)),
-                             Symbol=sym if rng.random() < 0.7 else ""))
+                             Symbol=spell[sym] if rng.random() < 0.7 else ""))
         elif k < 0.9:
-            rows.append(dict(base, Action=rng.choice(NON_CGT), Symbol=rng.choice([sym, ""]),
+            rows.append(dict(base, Action=rng.choice(NON_CGT), Symbol=rng.choice([spell[sym], ""]),
                              Amount=spell_amount(rng, Fraction(rng.randint(1, 99999), 100))))
         elif k < 0.95:
             rows.append(dict(base, Action="Stock Split", Quantity=str(rng.randint(1, 100))))
         else:
-            rows.append(dict(base, Action=rng.choice(UNKNOWN), Symbol=rng.choice([sym, "", "A\nB", "# x"]),
+            rows.append(dict(base, Action=rng.choice(UNKNOWN), Symbol=rng.choice([spell[sym], "", "A\nB", "# x"]),
                              Amount=spell_amount(rng, Fraction(rng.randint(1, 99999), 100))))
     awards = None
     if award_entries:
